@@ -2,14 +2,26 @@
 # proof: Properties_C08.v (ScalSpec/ScalImpl); tie: the extracted ScalImpl model vs the library's conversion functions,
 # bit for bit (doubles/floats as IEEE bit patterns); oracle: exact rational arithmetic (fractions) written from the
 # property statement, evaluated on the library's own outputs.
-import random, struct, collections, os
+import random, struct, collections, os, re
 from fractions import Fraction
 import vlib, tables
 
 TABLES = ["table_b_bufr", "table_b_bufr-13", "table_b_bufr-31", "table_b_bufr-32", "table_b_bufr-35"]
 DBL_MAX_BITS = "7fefffffffffffff"
 FLT_MAX_BITS = "7f7fffff"
-FINDING_KEY = "negscale_exact_extreme"
+# known-finding classes (see proposed_fixes/C08_*.md); each is reported with rep.finding only while known_findings.json lists it as open
+F_NEGSCALE = "negscale_exact_extreme"        # exact physical value at a range end rejected when scale < 0 (inexact pow(10,scale))
+F_F32 = "f32_extra_roundings"                # single-precision path loses raw values a binary32 can carry (float val_pow)
+F_WRAP = "negscale_negref_fmax_wrap"          # scale<0 and reference < -(2^w-2): fmax wraps in uint64, no post-check: value above range -> raw >= 2^w
+F_SPRINTF = "set_dvalue_sprintf_overflow"    # bufr_descriptor_set_dvalue: sprintf("%f") of a huge out-of-range value overflows errmsg[256]
+
+
+def f32_guaranteed(s, ref, w):
+    """sub-domain of f32_domain on which even the library's present float arithmetic (two roundings with the same
+    float power on each side) is within half a unit: N < 2^22.  Between this and f32_domain lies finding F_F32."""
+    top = (1 << w) - 2
+    n = max(abs(ref), abs(top + ref))
+    return s == 0 or n < (1 << 22)
 
 
 # ------------------------------------------------------------------ exact arithmetic (the oracle's vocabulary)
@@ -192,7 +204,8 @@ def raw_picks(rng, s, ref, w, n_rand):
 
 # ------------------------------------------------------------------ oracles
 def oracle_R(s, ref, w, desc, i, toks, f32req):
-    """R case: d=decode(i), j=encode(d), f=decodef(i), k=encodef(f).  Returns (failure text or None, float-path note)."""
+    """R case: d=decode(i), j=encode(d), f=decodef(i), k=encodef(f).  Returns (failure text or None, float-path note);
+    failures of the single-precision path start with 'single precision'."""
     allones = (1 << w) - 1
     dh, jh, fh, kh = toks[0], toks[1], toks[2], toks[3]
     j = int(jh, 16); k = int(kh, 16)
@@ -313,45 +326,49 @@ def build_phase2(rng, tier, r_results):
             q = phys(s, ref, i)
             b = rn_double_bits(q)
             if b is not None and b != DBL_MAX_BITS:
-                extreme = (i == top or i == 0)
-                lines.append("D %s %s" % (enc_str(e), b)); meta.append(("D", e, "exact", i, extreme and s < 0))
+                cls = F_NEGSCALE if ((i == top or i == 0) and s < 0) else None
+                lines.append("D %s %s" % (enc_str(e), b)); meta.append(("D", e, "exact", i, cls))
                 if flt64:
-                    lines.append("X %s %s" % (enc_str(e), b)); meta.append(("X", e, "exact", i, extreme and s < 0))
+                    lines.append("X %s %s" % (enc_str(e), b)); meta.append(("X", e, "exact", i, cls))
             for sgn in (-1, 1):
                 qq = q + sgn * unit / 4
                 if phys(s, ref, 0) <= qq <= phys(s, ref, top):
                     bb = rn_double_bits(qq)
                     if bb is not None and spec_quant(s, ref, w, Fraction(d_of_bits(bb))) == i:
-                        lines.append("D %s %s" % (enc_str(e), bb)); meta.append(("D", e, "perturbed", i, False))
+                        lines.append("D %s %s" % (enc_str(e), bb)); meta.append(("D", e, "perturbed", i, None))
             if f32:
                 fb = rn_float_bits(q)
                 if fb is not None and fb != FLT_MAX_BITS and spec_quant(s, ref, w, Fraction(f_of_bits(fb))) == i:
-                    extreme = (i == top or i == 0)
-                    lines.append("F %s %s" % (enc_str(e), fb)); meta.append(("F", e, "exact", i, extreme and (s < 0 or s > 10)))
+                    cls = None if f32_guaranteed(s, ref, w) and 0 <= s <= 10 else F_F32     # float val_pow is inexact outside 0..10
+                    lines.append("F %s %s" % (enc_str(e), fb)); meta.append(("F", e, "exact", i, cls))
         # outside the representable range: at least half a unit beyond the extremes, the value of the all-ones pattern, far away
         outs = [phys(s, ref, -1), phys(s, ref, 0) - unit * Fraction(6, 10), phys(s, ref, top) + unit * Fraction(6, 10),
                 phys(s, ref, allones), phys(s, ref, allones + 1), phys(s, ref, top) + 1000 * unit, phys(s, ref, 0) - 1000 * unit,
                 Fraction(10) ** 30, -Fraction(10) ** 30, Fraction(10) ** 300]
+        c31 = (desc // 1000) % 100 == 31
         for q in outs:
             b = rn_double_bits(q)
             if b is None or b == DBL_MAX_BITS:
                 continue
             if spec_quant(s, ref, w, Fraction(d_of_bits(b))) != allones:
                 continue           # the rounding of q to a double moved it back inside (huge references): not an outside value
-            lines.append("D %s %s" % (enc_str(e), b)); meta.append(("D", e, "outside", None, False))
-            if flt64:
-                lines.append("X %s %s" % (enc_str(e), b)); meta.append(("X", e, "outside", None, False))
+            wrapcls = F_WRAP if (s < 0 and top + ref < 0 and q > phys(s, ref, top)) else None
+            lines.append("D %s %s" % (enc_str(e), b)); meta.append(("D", e, "outside", None, wrapcls))
+            if flt64 and not (c31 and phys(s, ref, 0) <= q <= phys(s, ref, allones)):      # class 31: the all-ones value is a value
+                huge = abs(q) >= Fraction(10) ** 100
+                lines.append("X %s %s" % (enc_str(e), b)); meta.append(("X", e, "outside", None, F_SPRINTF if huge else None))
             if f32:
                 fb = rn_float_bits(q)
                 if fb is not None and fb != FLT_MAX_BITS and spec_quant(s, ref, w, Fraction(f_of_bits(fb))) == allones:
-                    lines.append("F %s %s" % (enc_str(e), fb)); meta.append(("F", e, "outside", None, False))
+                    near = phys(s, ref, -2) <= q <= phys(s, ref, allones + 1)     # resolving < 1 unit needs the double arithmetic of the F_F32 fix
+                    lines.append("F %s %s" % (enc_str(e), fb)); meta.append(("F", e, "outside", None, wrapcls or (F_F32 if near else None)))
         for b in (DBL_MAX_BITS, "7ff0000000000000", "fff0000000000000", "7ff8000000000000"):
-            lines.append("D %s %s" % (enc_str(e), b)); meta.append(("D", e, "outside", None, False))
+            lines.append("D %s %s" % (enc_str(e), b)); meta.append(("D", e, "outside", None, None))
         # the library's own decoded doubles handed back through the descriptor-level range check
         if flt64:
             for i, toks in lst[:2] + lst[-3:]:
                 if i <= top:
-                    lines.append("X %s %s" % (enc_str(e), toks[0])); meta.append(("X", e, "decoded", i, False))
+                    lines.append("X %s %s" % (enc_str(e), toks[0])); meta.append(("X", e, "decoded", i, None))
     return lines, meta
 
 
@@ -366,9 +383,14 @@ def run(rep, tier, seed, replay=None):
     dist = collections.Counter()
     nviol = [0]
 
+    vkeys = collections.Counter()
+
     def violation(text, line, extra=None, no_input=False):
+        """at most 3 reports per kind of failure (the text without its numbers), so that one class cannot hide another"""
+        key = re.sub(r"[0-9a-f]*\d[0-9a-f]*", "#", text.split("[case:")[0])[:90]
+        vkeys[key] += 1
         nviol[0] += 1
-        if nviol[0] > 12:
+        if vkeys[key] > 3 or len(vkeys) > int(os.environ.get("C08_MAXVIOL", "40")):
             return
         r = {"kind": "c08", "lines": [line]}
         if extra:
@@ -414,6 +436,18 @@ def run(rep, tier, seed, replay=None):
     dist["distinct_shipped_encodings"] = len(encs_ship)
     dist["synthetic_encodings"] = len(encs_syn)
 
+    def settle(fail, cls, ln, extra):
+        """a failing oracle: known finding class (still open) -> KNOWN-FINDING, otherwise a violation"""
+        if cls and cls in known:
+            rep.finding(known[cls].get("what", cls))
+            dist["known_finding_" + cls] += 1
+        else:
+            violation("C08: %s  [case: %s]" % (fail, ln), ln, extra)
+
+    def corr_broken(ln, c, mo, where):
+        violation("C08: correspondence ScalImpl.v <-> library broken on case %s (impl %s, model %s); the exact-arithmetic oracle accepts the library's behaviour"
+                  % (ln, c, mo), ln, {"impl": c, "model": mo, "powtab": powtab, "correspondence": where}, no_input=True)
+
     # ---------------- phase 1: pow contract, value functions, decode->encode round trips
     lines, meta = build_phase1(rng, tier, encs_ship, encs_syn)
     # pow(10,k) first (C only) to learn libm's values
@@ -423,7 +457,6 @@ def run(rep, tier, seed, replay=None):
     for (tag, k), h in zip(meta[:npow], pout):
         q = p10(k)
         want = rn_double_bits(q)
-        rep.count(("P", k))
         d = Fraction(d_of_bits(h))
         ulp = Fraction(2) ** (max(((int(h, 16) >> 52) & 0x7ff), 1) - 1075)
         if 0 <= k <= 22 and d != q:
@@ -442,7 +475,6 @@ def run(rep, tier, seed, replay=None):
         return
     r_results = []
     pending_mono = {}
-    f32notes = collections.Counter()
     for idx, (ln, m) in enumerate(zip(lines, meta)):
         c = cout[idx]; mo = mout[idx] if idx < len(mout) else "<none>"
         rep.count(ln)
@@ -450,6 +482,7 @@ def run(rep, tier, seed, replay=None):
             rep.sample({"case": ln, "impl": c, "model": mo})
         tag = m[0]
         fail = None
+        cls = None
         if tag == "P":
             pass
         elif tag == "M":
@@ -492,7 +525,7 @@ def run(rep, tier, seed, replay=None):
             if f32req:
                 dist["R_float_path_required"] += 1
             else:
-                dist["R_float_path_outside_domain_%s" % note] += 1
+                dist["R_float_path_outside_representable_domain_%s" % note] += 1
             if fail is None and i < (1 << w) - 1:
                 # strict monotonicity of adjacent raw values (cases come in runs of adjacent i)
                 prev = pending_mono.get(e)
@@ -503,32 +536,47 @@ def run(rep, tier, seed, replay=None):
                     elif f32req and not f_of_bits(prev[2]) < f_of_bits(toks[2]):
                         fail = "single precision: physical values do not increase strictly: raw %d -> %s, raw %d -> %s" % (i - 1, prev[2], i, toks[2])
                 pending_mono[e] = (i, toks[0], toks[2])
+            if fail and fail.startswith("single precision") and not f32_guaranteed(s, ref, w):
+                cls = F_F32
             if mo.split()[4:5] and i < (1 << w) - 1 and mo.split()[4] != str(i) and fail is None and c.split()[:4] == mo.split()[:4]:
                 fail = "the model's quantisation (quantQ) of the decoded double is %s, not %d" % (mo.split()[4], i)
             r_results.append(((e, i, group), toks))
         if fail:
-            violation("C08: %s  [case: %s]" % (fail, ln), ln, {"impl": c, "model": mo, "powtab": powtab})
-        elif tag != "P" and c.split()[:4] != mo.split()[:4]:
-            violation("C08: correspondence ScalImpl.v <-> library broken on case %s (impl %s, model %s); the exact-arithmetic oracle accepts the library's behaviour"
-                      % (ln, c, mo), ln, {"impl": c, "model": mo, "powtab": powtab, "correspondence": "ScalImpl.v vs bufr_tables.c/bufr_value.c"}, no_input=True)
+            settle(fail, cls, ln, {"impl": c, "model": mo, "powtab": powtab})
+        if tag != "P" and c.split()[:4] != mo.split()[:4] and (not fail or cls):
+            corr_broken(ln, c, mo, "ScalImpl.v vs bufr_tables.c/bufr_value.c")
     ncases = len(lines)
 
     # ---------------- phase 2: doubles handed to the encoder and to the descriptor-level range check
     lines2, meta2 = build_phase2(rng, tier, r_results)
-    cout, cerr, mout = run_both(lines2, powtab)
-    if not died(cout, cerr, lines2, len(lines2)):
-        for idx, (ln, m) in enumerate(zip(lines2, meta2)):
+    batches = [[(l, m) for l, m in zip(lines2, meta2) if m[4] != F_SPRINTF], [(l, m) for l, m in zip(lines2, meta2) if m[4] == F_SPRINTF]]
+    for bi, batch in enumerate(batches):
+        if not batch:
+            continue
+        bl = [l for l, _ in batch]
+        cout, cerr, mout = run_both(bl, powtab)
+        ncases += len(bl)
+        if len(cout) - 1 < len(bl):
+            i0 = max(0, len(cout) - 1)
+            msg = " | ".join(l for l in cerr.split("\n") if "ERROR" in l or "SUMMARY" in l)[:300]
+            fail = "the library crashed or was stopped by the sanitizer on this case: %s" % msg
+            rep.count(bl[i0])
+            settle(fail, batch[i0][1][4], bl[i0], {"stderr": cerr[-1500:], "powtab": powtab})
+        for idx, (ln, m) in enumerate(batch):
+            if idx >= len(cout) - 1:
+                break
             c = cout[idx]; mo = mout[idx] if idx < len(mout) else "<none>"
             rep.count(ln)
             if idx % 5003 == 0:
                 rep.sample({"case": ln, "impl": c, "model": mo})
-            tag, e, kind, i, negext = m
+            tag, e, kind, i, cls = m
             s, ref, w, desc = e
-            allones = (1 << w) - 1
             dist[tag + "_" + kind] += 1
             fail = None
             if tag in ("D", "F"):
                 fail = oracle_D(s, ref, w, desc, kind, i, c.split()[0])
+                if fail and tag == "F":
+                    fail = "single precision: " + fail
             else:
                 f = c.split()
                 val = ln.split()[-1]
@@ -542,17 +590,10 @@ def run(rep, tier, seed, replay=None):
                     if stored != val or rt < 0:
                         fail = "bufr_descriptor_set_dvalue rejected the %s physical value %s of raw %d (range [%s,%s]): stored %s" % (
                             kind, val, i, f[0], f[1], "missing" if stored == DBL_MAX_BITS else stored)
-            if fail and negext and FINDING_KEY in known:
-                rep.finding(known[FINDING_KEY].get("what", FINDING_KEY))
-                dist["known_finding_" + FINDING_KEY] += 1
-                fail = None
-                # the model mirrors the defect: correspondence is still required below
             if fail:
-                violation("C08: %s  [case: %s]" % (fail, ln), ln, {"impl": c, "model": mo, "powtab": powtab})
-            elif c.split()[:4] != mo.split()[:4] and not (tag == "X" and c.split()[4] != "5"):
-                violation("C08: correspondence ScalImpl.v <-> library broken on case %s (impl %s, model %s); the exact-arithmetic oracle accepts the library's behaviour"
-                          % (ln, c, mo), ln, {"impl": c, "model": mo, "powtab": powtab, "correspondence": "ScalImpl.v vs bufr_tables.c/bufr_desc.c"}, no_input=True)
-    ncases += len(lines2)
+                settle(fail, cls if cls != F_SPRINTF else None, ln, {"impl": c, "model": mo, "powtab": powtab})
+            if c.split()[:4] != mo.split()[:4] and not (tag == "X" and c.split()[4] != "5") and (not fail or cls):
+                corr_broken(ln, c, mo, "ScalImpl.v vs bufr_tables.c/bufr_desc.c")
 
     # ---------------- phase 3: sweeps inside the C harness (round trip + strict monotonicity of every swept raw value)
     sl, sm = sweep_lines(tier, encs_ship, encs_syn)
@@ -573,18 +614,17 @@ def run(rep, tier, seed, replay=None):
                           "R %s %d" % (enc_str(e), int(f[4]) - st), {"sweep": ln, "second": "R %s %s" % (enc_str(e), f[4]), "powtab": powtab})
             if f32_domain(s, ref, w):
                 dist["sweep_evaluations_float_required"] += int(f[0])
+                cls = None if f32_guaranteed(s, ref, w) else F_F32
                 if int(f[6]):
-                    violation("C08: single precision round trip fails inside the sweep: first failing raw value %s  [case: R %s %s]" % (f[7], enc_str(e), f[7]),
-                              "R %s %s" % (enc_str(e), f[7]), {"sweep": ln, "powtab": powtab})
+                    settle("single precision round trip fails inside the sweep: first failing raw value %s (%s of %s)" % (f[7], f[6], f[0]), cls,
+                           "R %s %s" % (enc_str(e), f[7]), {"sweep": ln, "powtab": powtab})
                 elif int(f[8]) and st == 1:
-                    violation("C08: single precision: physical values do not increase strictly at raw value %s  [case: R %s %s]" % (f[9], enc_str(e), f[9]),
-                              "R %s %s" % (enc_str(e), f[9]), {"sweep": ln, "powtab": powtab})
+                    settle("single precision: physical values do not increase strictly at raw value %s" % f[9], cls,
+                           "R %s %s" % (enc_str(e), f[9]), {"sweep": ln, "powtab": powtab})
             else:
-                dist["sweep_float_outside_domain_" + ("lossless" if int(f[6]) == 0 else "lossy")] += 1
+                dist["sweep_float_outside_representable_domain_" + ("lossless" if int(f[6]) == 0 else "lossy")] += 1
     ncases += len(sl)
     rep.cov["traces_validated_against_impl"] = ncases
-    if f32notes:
-        dist.update(f32notes)
     finish(rep, dist, proved)
 
 
